@@ -835,6 +835,9 @@ func (e *Enc) loopHead(fc *fctx, l *loopInfo, guard string, st *State) (string, 
 			}
 		}
 	}
+	// 2b. compiler-generated range index: -1 <= rangeindex <= bound-1 holds by construction of
+	// range-over-slice/string-index loops (the hidden index is assigned only by the loop header)
+	e.rangeIndexFacts(fc, l, guard, ns)
 	// 3. assume invariants
 	for _, c := range invs {
 		sc := e.specCtx(fc, ns, guard)
@@ -842,6 +845,36 @@ func (e *Enc) loopHead(fc *fctx, l *loopInfo, guard string, st *State) (string, 
 	}
 	e.smoke(guard, fmt.Sprintf("%sL%d.head", fc.tag, l.idx))
 	return guard, ns
+}
+
+func (e *Enc) rangeIndexFacts(fc *fctx, l *loopInfo, guard string, st *State) {
+	for _, ins := range l.head.Instrs {
+		cmp, ok := ins.(*ssa.BinOp)
+		if !ok || cmp.Op != token.LSS {
+			continue
+		}
+		inc, ok := cmp.X.(*ssa.BinOp)
+		if !ok || inc.Op != token.ADD {
+			continue
+		}
+		ld, ok := inc.X.(*ssa.UnOp)
+		if !ok || ld.Op != token.MUL {
+			continue
+		}
+		al, ok := ld.X.(*ssa.Alloc)
+		if !ok || al.Comment != "rangeindex" || al.Heap {
+			continue
+		}
+		cur, ok := st.loc[al]
+		if !ok {
+			continue
+		}
+		bv, ok := fc.vals[cmp.Y]
+		if !ok || bv.K != vTerm {
+			continue
+		}
+		e.assume(guard, fmt.Sprintf("(and (<= (- 1) %s) (<= %s (- %s 1)) (<= 0 %s))", cur, cur, bv.T, bv.T))
+	}
 }
 
 func (e *Enc) loopBack(fc *fctx, l *loopInfo, guard string, st *State) {
